@@ -51,9 +51,9 @@ theorem transition_preserves (q : Quirks) (s s1 : State) (hinv : Inv s) (b k cls
 /-- Transitions never touch any *other* version that has a version id (corollary of C13). -/
 theorem transition_keeps_other_versions (q : Quirks) (hq : q.appendLatestInPlace = false) (s : State) (hinv : Inv s)
     (b b' k cls : String) (vid : Option (Option Nat)) (bk : Bucket) (r : Row)
-    (hfb : findBucket s b = some bk) (hver : bk.ver ≠ .off) (hr : r ∈ bk.rows) (hv : r.vid ≠ none) :
+    (hfb : findBucket s b = some bk) (hr : r ∈ bk.rows) (hv : r.vid ≠ none) :
     ∃ bk', findBucket (step q s (.transition b' k cls vid)).1 b = some bk' ∧ ∃ r' ∈ bk'.rows, frozenEq q r r' :=
-  C13.version_frozen q hq s hinv _ b bk r hfb hver hr hv (by intro _ _ _ _ h; cases h)
+  C13.version_frozen q hq s hinv _ b bk r hfb hr hv (by intro ⟨_, _, _, h, _⟩; cases h)
 
 /-- Non-vacuity: a concrete reachable state in which a transition succeeds. -/
 example : (step Quirks.code (run Quirks.code {} [.mkb "b", .put "b" "k" [1, 2] {} false .none]).1
